@@ -31,11 +31,11 @@ Proof. exact doc_levels_match. Qed.
 Theorem C02_gen_bp_wf : wf_bp gen_bp = true /\ gen_rows_complete = true.
 Proof. exact gen_bp_wf. Qed.
 
-(* PARTIAL w.r.t. the full property grammar only in this: `printable` excludes slices
-   `x[a:b:c]`, array/map literals and list comprehensions (their bracket structure is parsed by
-   dedicated functions, not by the binding-power loop; they are covered by the correspondence
-   run).  Everything else — constants, variables, `.`/`?.`/`[]`/`?[` chains, subscripts on any
-   base, unary `-`/`not`, the 17 infix operators, `not in`, `is`/`is not` tests and `|` filters
+(* PARTIAL w.r.t. the full property grammar only in this: `printable` excludes array/map
+   literals and list comprehensions (their bracket structure is parsed by dedicated functions,
+   not by the binding-power loop; they are atoms for precedence and are covered by the
+   correspondence run).  Everything else — constants, variables, `.`/`?.`/`[]`/`?[` chains,
+   subscripts and slices `x[a:b:c]` on any base, unary `-`/`not`, the 17 infix operators, `not in`, `is`/`is not` tests and `|` filters
    with keyword arguments, function calls, the ternary, parentheses anywhere — is covered, for
    every well-formed binding-power table. *)
 Theorem C02_pratt_roundtrip_partial : forall bp, wf_bp bp = true ->
